@@ -611,7 +611,17 @@ func (r *Reader) readBlock(bh blockHandle, verifyChecksum bool) (*block, error) 
 	if err != nil {
 		return nil, err
 	}
+	// A block ends with its restart points (4 bytes each) and their count
+	// (4 bytes); both numbers come from the file.
+	if len(data) < 4 {
+		r.bpool.Put(data)
+		return nil, r.newErrCorruptedBH(bh, "block too short for the restart count")
+	}
 	restartsLen := int(binary.LittleEndian.Uint32(data[len(data)-4:]))
+	if restartsLen > (len(data)-4)/4 {
+		r.bpool.Put(data)
+		return nil, r.newErrCorruptedBH(bh, "restart points exceed the block")
+	}
 	b := &block{
 		bpool:          r.bpool,
 		bh:             bh,
